@@ -3,7 +3,8 @@ import Helios.Model.Locks
 C12 — the hand-written side of the static tie: which lock guards which field of which struct,
 and the rank of every lock class. `Props/C12.lean` proves that every row re-derived from the
 current source (`Generated/Locks.lean`) satisfies it. Unknown structs and fields default to
-`immutable`, so a new shared mutable field without a declared guard fails the theorem.
+`immutable` (package-level variables: written only by `init` functions), so a new shared mutable
+field or global without a declared guard fails the theorem.
 -/
 namespace Helios.Locks
 
@@ -21,8 +22,18 @@ def startupFuncs : List String :=
   ["cmd/helios.logStartupInfo", "internal/config.Config.validateLoadBalancer",
    "internal/loadbalancer.NewLoadBalancer"]
 
-def policy (struct_ field : String) : Policy :=
+/-- functions that write package-level state and are called only during package initialisation
+(`Facts.init_writers_called_from_init` re-checks the callers on every run) -/
+def initWriters : List String := ["internal/plugins.RegisterBuiltin"]
+
+/-- `inits`: the `init` functions found in the current source (regenerated). Package-level
+variables are rows of the pseudo-struct `var` with field `<package>.<name>`. -/
+def policy (inits : List String) (struct_ field : String) : Policy :=
   match struct_ with
+  | "var" =>
+    if field == "internal/plugins.builtins" then .initOnly (initWriters ++ inits)
+    else if field == "internal/logging.baseLogger" then .guarded "internal/logging.baseLoggerMu" false []
+    else .initOnly inits
   | "Backend" =>
     if field == "IsHealthy" || field == "UnhealthyUntil" then .guarded "Backend.Mutex" true []
     else if field == "ActiveConnections" then .atomic else .immutable
@@ -91,7 +102,7 @@ def edgeOk (e : String × String × String) : Bool :=
 
 
 /-- rows that violate the policy (diagnostics for a failing `accesses_guarded`) -/
-def badAccesses (chunks : List (List Access)) : List (String × String × String × String × Nat) :=
-  (chunks.flatten.filter (fun a => !a.ok policy)).map (fun a => (a.struct_, a.field, a.kind, a.func, a.line))
+def badAccesses (inits : List String) (chunks : List (List Access)) : List (String × String × String × String × Nat) :=
+  (chunks.flatten.filter (fun a => !a.ok (policy inits))).map (fun a => (a.struct_, a.field, a.kind, a.func, a.line))
 
 end Helios.Locks
